@@ -21,7 +21,7 @@ func (e *ObjectExpr) Evaluate(engine *Engine, input interface{}, args []*Stateme
 				return nil, err
 			}
 
-			results = reflect.Append(results, reflect.ValueOf(result))
+			results = appendResult(results, result)
 		}
 
 		return results.Interface(), nil
